@@ -76,8 +76,13 @@ def case_strategy(draw):
     ints = draw(st.lists(st.integers(0, 65535), min_size=24, max_size=24))
     ctx = draw(st.sampled_from(["strict", "warn", "ignore", "default"]))
     if draw(st.integers(0, 2)) == 0:
-        blocks = draw(MG.gen_schedule())
-        text = MG.render(blocks, draw(st.sampled_from(["METRIC", "FIELD", "LAB", "PVT-M"])))
+        blocks = draw(MG.gen_schedule(kinds=list(MG.GENERATORS) + list(MG.EXTRA_GENERATORS)))
+        if draw(st.integers(0, 2)) == 0:
+            # a report keyword in the old integer-control style, of arbitrary length (positions have meanings up to ~30..80)
+            blocks[draw(st.integers(0, len(blocks) - 1))]["kws"].insert(0, "%s\n %s /\n" % (
+                draw(st.sampled_from(["RPTRST", "RPTRST", "RPTSCHED"])), draw(MG.int_controls())))
+        text = MG.render(blocks, draw(st.sampled_from(["METRIC", "FIELD", "LAB", "PVT-M"])),
+                         static=draw(MG.gen_static()) if draw(st.booleans()) else None)
         files = {"ROOT.DATA": text}
         kind = "model"
     else:
